@@ -32,6 +32,21 @@ REQUIRED_REMOVERS_ALLOWED = {
 }
 
 
+
+
+def _name_given(v: ast.AST) -> bool:
+    """`<local> is not None` or a bare `<local>` (truthiness of the chosen name)."""
+    if isinstance(v, ast.Name):
+        return True
+    return isinstance(v, ast.Compare) and isinstance(v.left, ast.Name) and len(v.ops) == 1 and isinstance(v.ops[0], ast.IsNot) and isinstance(v.comparators[0], ast.Constant) and v.comparators[0].value is None
+
+def _decision_asked(t: ast.AST) -> bool:
+    """Guard under which get_subcommands must come to a decision: `fail_no_subcommand`, possibly widened by
+    `subcommand is not None` (a name that was given is always checked)."""
+    if isinstance(t, ast.BoolOp) and isinstance(t.op, ast.Or):
+        return all(ast.unparse(v) == "fail_no_subcommand" or _name_given(v) for v in t.values) and any(ast.unparse(v) == "fail_no_subcommand" for v in t.values)
+    return ast.unparse(t) == "fail_no_subcommand"
+
 def run(ctx: Ctx) -> int:
     # ---------------- C06.a ---------------------------------------------------
     validate = ctx.func("_core:ArgumentParser.validate")
@@ -351,11 +366,25 @@ def run(ctx: Ctx) -> int:
                 pos += t.values if isinstance(t, ast.BoolOp) and isinstance(t.op, ast.And) else [t]
         ok = "_name_parser_map" in txt and "fail_no_subcommand" in txt
         # the only way past the raise without a known subcommand: the early `return None, None` for "nothing given, nothing required"
-        extra_g = [ast.unparse(t) for t in pos if not ("_name_parser_map" in ast.unparse(t) or ast.unparse(t) == "fail_no_subcommand")]
+        extra_g = [ast.unparse(t) for t in pos if not ("_name_parser_map" in ast.unparse(t) or _decision_asked(t))]
         ok = ok and not extra_g
-        early = [r for r in walk_local(gs) if isinstance(r, ast.Return) and any("fail_no_subcommand" == ast.unparse(t) and pol for t, pol in guard_chain(r)) and r.lineno < rz_s[0].lineno]
+        early = [r for r in walk_local(gs) if isinstance(r, ast.Return) and any(_decision_asked(t) and pol for t, pol in guard_chain(r)) and r.lineno < rz_s[0].lineno]
         ok_early = all(any("is None" in ast.unparse(t) and pol for t, pol in guard_chain(r)) for r in early)
         ok = ok and ok_early
+    # ... and a NAME THAT WAS GIVEN is checked whether or not a decision is asked for: the parser list handed out is
+    # built with `_name_parser_map.get(name)`, which is None for an unknown name, and every caller dereferences it
+    if rz_s:
+        outer = [t for t, pol in guard_chain(rz_s[0]) if pol and "fail_no_subcommand" in ast.unparse(t)]
+        always = not outer or all(isinstance(t, ast.BoolOp) and isinstance(t.op, ast.Or) and any(_name_given(v) and ast.unparse(v) != "fail_no_subcommand" for v in t.values) for t in outer)
+        hands_out_get = any(isinstance(c_, ast.Call) and call_leaf(c_) == "get" and "_name_parser_map" in ast.unparse(c_.func) for r_ in walk_local(gs) if isinstance(r_, ast.Return) and r_.value is not None for c_ in ast.walk(r_.value))
+        ctx.oblige(
+            "C06.d",
+            always or not hands_out_get,
+            rz_s[0],
+            "a subcommand name that was given is checked against the choices on every path" if (always or not hands_out_get) else "an unknown subcommand name is rejected only when a decision is asked for (fail_no_subcommand): while a --cfg item or a default config file is folded in (fail_no_subcommand=False) the name `zz` of `subcommand: zz` passes, its parser is None, and handle_subcommands dereferences it - AttributeError out of parse_args(['--cfg', 'subcommand: zz'])",
+            fn=gs,
+            construct="given name always checked",
+        )
     ctx.oblige(
         "C06.d",
         ok,
